@@ -272,6 +272,71 @@ func (d *dimAnalyzer) analyzeDims(fn *ssa.Function) (issues []dimIssue, sites in
 	return issues, sites
 }
 
+// checkedLookups: the key dimensions that fn resolves with a lookup that can FAIL — an ORM Get/Has by
+// key (not found ⇒ error) or a comma-ok map lookup whose ok flag is branched on. A plain map index
+// silently yields the zero value and resolves nothing.
+func (d *dimAnalyzer) checkedLookups(fn *ssa.Function) map[string]string {
+	f := &fnDims{d: d, fn: fn, memo: map[ssa.Value]string{}, busy: map[ssa.Value]bool{}, mapKey: map[ssa.Value]string{}, mapVal: map[ssa.Value]string{}, mapSite: map[ssa.Value]ssa.Instruction{}}
+	for round := 0; round < 2; round++ {
+		f.memo = map[ssa.Value]string{}
+		for _, b := range fn.Blocks {
+			for _, in := range b.Instrs {
+				if mu, ok := in.(*ssa.MapUpdate); ok {
+					if r := mapRoot(mu.Map); r != nil {
+						if kd := f.dim(mu.Key); kd != "" {
+							if _, has := f.mapKey[r]; !has {
+								f.mapKey[r] = kd
+							}
+						}
+						if vd := f.dim(mu.Value); vd != "" {
+							if _, has := f.mapVal[r]; !has {
+								f.mapVal[r] = vd
+							}
+						}
+					}
+				}
+			}
+		}
+	}
+	f.memo = map[ssa.Value]string{}
+	out := map[string]string{}
+	for _, b := range fn.Blocks {
+		for _, in := range b.Instrs {
+			switch x := in.(type) {
+			case *ssa.Call:
+				oc := d.m.AsORMCall(x)
+				if oc == nil || (oc.Kind != "get" && oc.Kind != "has") {
+					continue
+				}
+				for i := 1; i < len(x.Call.Args); i++ {
+					if kd := f.dim(x.Call.Args[i]); kd != "" {
+						out[kd] = "store lookup " + oc.Table.Name + "." + oc.Method
+					}
+				}
+			case *ssa.Lookup:
+				if !x.CommaOk {
+					continue
+				}
+				tested := false
+				for _, r := range *x.Referrers() {
+					if ex, ok := r.(*ssa.Extract); ok && ex.Index == 1 {
+						if ifi, _ := ifOn(ex); ifi != nil {
+							tested = true
+						}
+					}
+				}
+				if !tested {
+					continue
+				}
+				if kd := f.dim(x.Index); kd != "" {
+					out[kd] = "tested map lookup"
+				}
+			}
+		}
+	}
+	return out
+}
+
 func ordinalMake(fn *ssa.Function, r ssa.Value) int {
 	n := 0
 	for _, b := range fn.Blocks {
